@@ -64,6 +64,14 @@ class SelMap(Engine):
         [['set', 0, 'a', '1'], ['set', 0, 'b.a', '2'], ['getmatch', 0, 'a'], ['matching', 0, 'a'],
          ['minimal', 0, 'b.a'], ['minimal', 0, 'a'], ['set', 0, 'a..b', 'x'], ['set', 0, '', 'x'],
          ['pop', 0, 'zz'], ['matching', 0, ''], ['matching', 0, '.a'], ['items', 0], ['len', 0]],
+        # rejected inserts (an outer component is not an identifier, the inner ones run along a stored name and branch
+        # off): the stored names are unchanged, so is every answer - also in a later copy and after later pops
+        [['set', 0, 'a.b.x', '1'], ['set', 0, 'c.a.b', '2'], ['minimal', 0, 'a.b.x'], ['set', 0, '0.c.b.x', 'bad'],
+         ['minimal', 0, 'a.b.x'], ['matching', 0, 'b.x'], ['contains', 0, '0.c.b.x'], ['len', 0], ['copy', 0],
+         ['minimal', 1, 'a.b.x'], ['set', 1, 'x.b.x', '3'], ['pop', 1, 'x.b.x'], ['minimal', 1, 'a.b.x'], ['items', 1]],
+        [['set', 0, 'a.b', '1'], ['set', 0, 'c..a.b', 'bad'], ['set', 0, 'b.1a.x.b', 'bad'], ['set', 0, '.c.b', 'bad'],
+         ['set', 0, 'a.b-c.x.a.b', 'bad'], ['minimal', 0, 'a.b'], ['matching', 0, 'b'], ['getmatch', 0, 'b'],
+         ['pop', 0, 'c.a.b'], ['pop', 0, 'a.b'], ['len', 0], ['items', 0], ['set', 0, 'x.c.b', '2'], ['minimal', 0, 'x.c.b']],
     ]
 
   def _name(self, rng, pool):
@@ -80,6 +88,17 @@ class SelMap(Engine):
       return base
     return '.'.join(rng.choice(IDS[:3]) for _ in range(rng.choice([1, 2, 2, 3, 3, 4])))
 
+  BAD = ['0', '', '1a', 'a b', 'a-b', 'a/b', '$', ' a', 'a ']
+
+  def _rejected_name(self, rng, pool):
+    """a name that has to be REJECTED (one component is not an identifier) whose valid inner components run along the path
+    of a stored name and then branch off: [valid outer]* + invalid + [valid fresh]* + suffix of a stored name.  The set of
+    stored names does not change, so nothing observable may."""
+    tail = rng.choice(suffixes(rng.choice(pool))) if pool and rng.random() < 0.9 else rng.choice(IDS)
+    mid = [rng.choice(IDS) for _ in range(rng.choice([0, 1, 1, 1, 2]))]
+    outer = [rng.choice(IDS) for _ in range(rng.choice([0, 0, 1, 2]))]
+    return '.'.join(outer + [rng.choice(self.BAD)] + mid + [tail])
+
   def gen(self, rng, tier):
     nreg, stored, ops = 1, [[]], []
     ids = IDS
@@ -91,6 +110,8 @@ class SelMap(Engine):
         n = self._name(rng, [n for s in stored for n in s])
         if rng.random() < 0.04:
           n = rng.choice(['', 'a..b', '.a', 'a.', 'a b', '1a', 'a.1', 'a/b'])
+        elif rng.random() < 0.1:
+          n = self._rejected_name(rng, [n for s in stored for n in s])
         ops.append(['set', r, n, 'v%d' % len(ops)])
         if n not in pool and all(p and (p[0].isalpha() or p[0] == '_') and p.replace('_', 'a').isalnum()
                                  for p in n.split('.')):
